@@ -11,11 +11,13 @@ Record arith (F : Type) := mkArith {
   of_Z : Z -> F; ffloor : F -> Z; fceil : F -> Z; fisfinite : F -> bool;
   fconst : Z -> positive -> F;            (* a float literal of the source, as the rational it denotes *)
   fnan : F; fpinf : F; fninf : F;
-  fminimum : F -> F -> F; fmaximum : F -> F -> F    (* numpy.minimum / numpy.maximum *) }.
+  fminimum : F -> F -> F; fmaximum : F -> F -> F;   (* numpy.minimum / numpy.maximum *)
+  ffloordiv : F -> F -> F; fmodulo : F -> F -> F;   (* python's // and % on floats *)
+  fint : F -> Z                                     (* int(x): truncation towards zero *) }.
 Arguments fadd {F}. Arguments fsub {F}. Arguments fmul {F}. Arguments fdiv {F}. Arguments flt {F}. Arguments fle {F}.
 Arguments feq {F}. Arguments of_Z {F}. Arguments ffloor {F}. Arguments fceil {F}. Arguments fisfinite {F}.
 Arguments fconst {F}. Arguments fnan {F}. Arguments fpinf {F}. Arguments fninf {F}. Arguments fminimum {F}.
-Arguments fmaximum {F}.
+Arguments fmaximum {F}. Arguments ffloordiv {F}. Arguments fmodulo {F}. Arguments fint {F}.
 
 (** results of translated functions that may raise or loop *)
 Inductive res (A : Type) := Done (a : A) | Raised | NoFuel.
@@ -84,6 +86,15 @@ Definition xminimum (a b : xnum) : xnum :=
 Definition xmaximum (a b : xnum) : xnum :=
   match a, b with NaN, _ | _, NaN => NaN | _, _ => if xlt a b then b else a end.
 
+(** python's floor division and modulo on exact numbers: a // b = floor(a / b), a % b = a - b * floor(a / b) (sign of the divisor);
+    anything non-finite or a zero divisor is NaN here (python raises ZeroDivisionError: guarded in the theorems by width > 0) *)
+Definition xfloordiv (a b : xnum) : xnum :=
+  match a, b with Fin x, Fin y => if Qceqb y 0 then NaN else Fin (qz (Qfloor (this (x / y)))) | _, _ => NaN end.
+Definition xmodulo (a b : xnum) : xnum :=
+  match a, b with Fin x, Fin y => if Qceqb y 0 then NaN else Fin (x - y * qz (Qfloor (this (x / y)))) | _, _ => NaN end.
+Definition xint (a : xnum) : Z :=
+  match a with Fin x => Z.quot (Qnum (this x)) (Zpos (Qden (this x))) | _ => 0%Z end.
+
 Definition xarith : arith xnum :=
   mkArith xnum xadd xsub xmul xdiv xlt xle xfeq (fun z => Fin (qz z)) xfloor xceil xfinite
-          (fun n d => Fin (mkq n d)) NaN PInf NInf xminimum xmaximum.
+          (fun n d => Fin (mkq n d)) NaN PInf NInf xminimum xmaximum xfloordiv xmodulo xint.
